@@ -21,6 +21,7 @@ Graphite `prefix` — operator configuration, outside the property's quantifier,
 path characters (`graphite_prefix_counterexample` documents that limit).
 -/
 import PromVerif.Lemmas.LinesCtor
+import PromVerif.Lemmas.LinesTextKinds
 import PromVerif.Lemmas.LinesGraphite
 
 namespace PromVerif.Props.C05
@@ -99,6 +100,34 @@ theorem text_lines_exact (fs : List Family) (h : ∀ f ∈ fs, familyOKText f = 
     obtain ⟨l0, hl0, rfl⟩ := List.mem_map.mp hl
     obtain ⟨k, hk⟩ := hall l0 hl0
     simp [recognise, hk.kind]
+
+/-- non-vacuity for the kind sequence: two main samples, `_gsum` ×2 and `_created` ×1 interleaved (groups come out sorted) -/
+def exFamK : Family :=
+  ⟨['h'], ['d'], "gaugehistogram".toList, [],
+    [⟨"h_gsum".toList, [], "1.0".toList, none, none⟩, ⟨"h_bucket".toList, [("le".toList, "+Inf".toList)], "2.0".toList, none, none⟩,
+     ⟨"h_created".toList, [], "3.0".toList, none, none⟩, ⟨"h_gsum".toList, [(['a'], ['b'])], "4.0".toList, none, none⟩,
+     ⟨"x\n".toList, [], "5.0".toList, none, none⟩]⟩
+example : familyOKText exFamK = true := by decide
+
+/-- FULL STRENGTH, exact KIND sequence (the text counterpart of `om_lines_exact_partial`): splitting the text exposition
+on LF and classifying every piece with the independent grammar gives, per family, HELP, TYPE, one sample line per
+sample that is not a trailing `_created/_gsum/_gcount` sample, then for each trailing suffix that occurs (groups sorted
+by suffix, `textGroups` = their sizes) HELP, TYPE and one sample line per sample of the group — then the empty piece
+after the last LF.  No line is added, removed, split or merged, whatever the strings. -/
+theorem text_kinds_exact (fs : List Family) (h : ∀ f ∈ fs, familyOKText f = true) :
+    lineKinds false (TextExpo.generateLatest fs) = (fs.flatMap textKinds).map some ++ [none] := by
+  have hl : LinesOf false (fs.map TextExpo.familyLines).flatten (fs.flatMap textKinds) :=
+    LinesOf.flatten fs TextExpo.familyLines textKinds (fun f hf => familyLines_kinds f (h f hf))
+  unfold lineKinds TextExpo.generateLatest
+  rw [List.flatMap_def, splitOn_lines _ hl.isLine, List.map_append, List.map_map]
+  have := hl.kinds
+  simp only [Function.comp_def] at this ⊢
+  rw [this]
+  rfl
+
+/-- the sample-line kinds of a family are exactly as many as its samples: main samples + group sizes -/
+example : textKinds exFamK = [.help, .type, .sample, .sample, .help, .type, .sample, .help, .type, .sample, .sample] := by
+  decide
 
 /-- one sample line of the text format, in isolation: any name, any labels; the value a number token -/
 theorem text_sample_line (s : Sample) (h : floatTok s.value = true) :
@@ -274,17 +303,19 @@ theorem f4_counterexample :
 under either validation setting — is accepted unchanged by `Metric.__init__`, which `collect()` runs before every
 exposition; and a family with that name, any documentation and any samples whose exemplars sit on eligible samples
 (the only ones `Counter.inc` / `Histogram.observe` create) is exposed by the OpenMetrics model without raising.
-The text model has no raising path at all (its type is `Str`, not `PyM Str`). -/
+Nothing is stated for the text exposition because nothing can be: its model is a total function (`Str`, not `PyM Str`).
+The real text exposition's only raising sites are `floatToGoString(value)` on a non-number and the
+`int(float(ts) * 1000)` conversion of a non-finite timestamp — both outside the model (values are numbers, the
+millisecond count is a model input the harness computes); constructors never supply a timestamp. -/
 theorem constructor_accepts_exposable (legacy : Bool) (typ name ns ss unit full doc : Str) (lns : List Str)
     (samples : List Sample)
     (hcls : typ ∈ PromVerif.Generated.Ctor.reservedLabelnames.map (·.1))
     (h : Ctor.wrapperInit legacy typ name ns ss unit lns = .ok full)
     (hex : exemplarsEligible ⟨full, doc, typ, unit, samples⟩ = true) :
     Ctor.metricInit legacy full typ unit = .ok (full, typ) ∧
-    (∃ out, OMExpo.generateLatest [⟨full, doc, typ, unit, samples⟩] = .ok out) ∧
-    (∃ out, TextExpo.generateLatest [⟨full, doc, typ, unit, samples⟩] = out) :=
+    (∃ out, OMExpo.generateLatest [⟨full, doc, typ, unit, samples⟩] = .ok out) :=
   ⟨ctor_then_metricInit legacy typ name ns ss unit full lns hcls h,
-   om_total _ (fun f hf => by simp at hf; subst hf; exact hex), ⟨_, rfl⟩⟩
+   om_total _ (fun f hf => by simp at hf; subst hf; exact hex)⟩
 
 /-- conversely the OpenMetrics model raises only for an exemplar on an ineligible sample -/
 theorem om_raises_only_for_ineligible_exemplar (fs : List Family) (h : ∀ f ∈ fs, exemplarsEligible f = true) :
